@@ -1865,8 +1865,10 @@ def note_array_from_part_list(
 
     if is_score:
         # rescale if parts have different divs
+        # a part without notes does not constrain the common divisions, but it
+        # keeps its place so that every part is rescaled by its own multiplier
         divs_per_parts = [
-            part_na[0]["divs_pq"] for part_na in note_array if len(part_na)
+            part_na[0]["divs_pq"] if len(part_na) else 1 for part_na in note_array
         ]
         lcm = np.lcm.reduce(divs_per_parts)
         time_multiplier_per_part = [int(lcm / d) for d in divs_per_parts]
